@@ -178,7 +178,7 @@ var nativeModel = map[string]bool{
 	"(time.Time).After": true, "(time.Time).Before": true, "(time.Time).IsZero": true, "(time.Time).Equal": true,
 	"(time.Time).Add": true, "(time.Time).Sub": true, "time.Now": true, "time.Since": true,
 	"errors.As": true, "errors.Join": true,
-	"slices.Contains": false,
+	"slices.Contains": true,
 }
 
 var nativeWrites = map[string][]string{
@@ -719,28 +719,30 @@ func (fg *FnGen) appendBuiltin(fr *Frame, c *ssa.CallCommon, args []*Term, st *S
 		fg.set(st, mn, ms, nm)
 		return []*Term{rc}, st
 	}
-	// generic element slices: args[1] is a slice of new elements
+	// generic element slices: args[1] is a slice of new elements.
+	// Model: the result is a fresh backing array holding the old elements followed by the new ones. (Go may instead
+	// extend the old backing array in place; elements visible through other slices of that array beyond len(s) are
+	// assumed not to be observed afterwards - listed as an assumption.)
 	add := args[1]
 	k := SLen(add)
-	fits := Le(Add(SLen(s), k), SCap(s))
 	newLen := Add(SLen(s), k)
 	ncap := fg.freshConst(fr.prefix+name+"_ncap", SInt)
 	fg.assume(Ge(ncap, newLen))
-	res := Ite(fits, MkSlice(SBase(s), SOff(s), newLen, SCap(s)), MkSlice(newBase, IntLit(0), newLen, ncap))
-	rc := fg.freshConst(fr.prefix+name, SSlice)
-	fg.assume(Eq(rc, res))
+	rc := MkSlice(newBase, IntLit(0), newLen, ncap)
 	oldArr := Select(mem, SBase(s))
 	addArr := Select(mem, SBase(add))
 	na := fg.freshConst(fr.prefix+name+"_arr", elemSort(ms))
 	i := Bound("ai!"+fg.freshName(""), SInt)
-	ro := SOff(rc)
-	// new array: prefix = old elements, then the added ones; in place: everything outside [off+len, off+len+k) unchanged
-	inOld := And(Ge(i, ro), Lt(i, Add(ro, SLen(s))))
-	inNew := And(Ge(i, Add(ro, SLen(s))), Lt(i, Add(ro, newLen)))
-	fg.assume(Forall([]*Term{i}, Implies(inOld, Eq(Select(na, i), Select(oldArr, Add(SOff(s), Sub(i, ro)))))))
-	fg.assume(Forall([]*Term{i}, Implies(inNew, Eq(Select(na, i), Select(addArr, Add(SOff(add), Sub(i, Add(ro, SLen(s)))))))))
-	fg.assume(Implies(fits, Forall([]*Term{i}, Implies(Not(inNew), Eq(Select(na, i), Select(oldArr, i))))))
-	fg.set(st, mn, ms, Store(mem, SBase(rc), na))
+	fg.assume(Forall([]*Term{i}, Implies(And(Ge(i, IntLit(0)), Lt(i, SLen(s))), Eq(Select(na, i), Select(oldArr, Add(SOff(s), i))))))
+	if k.isSmallInt() && k.Int >= 0 && k.Int <= 4 {
+		for j := int64(0); j < k.Int; j++ {
+			fg.assume(Eq(Select(na, Add(SLen(s), IntLit(j))), Select(addArr, Add(SOff(add), IntLit(j)))))
+		}
+	} else {
+		fg.assume(Forall([]*Term{i}, Implies(And(Ge(i, IntLit(0)), Lt(i, k)), Eq(Select(na, Add(SLen(s), i)), Select(addArr, Add(SOff(add), i))))))
+	}
+	fg.g.useTrusted("append on non-byte slices is modelled as a non-aliasing copy (in-place extension of a shared backing array is not observed through other slices)")
+	fg.set(st, mn, ms, Store(mem, newBase, na))
 	return []*Term{rc}, st
 }
 
@@ -812,6 +814,11 @@ func (fg *FnGen) native(fr *Frame, d callDesc, c *ssa.CallCommon, args []*Term, 
 		return one(Ite(StrPrefixOf(args[1], args[0]), Substr(args[0], StrLen(args[1]), Sub(StrLen(args[0]), StrLen(args[1]))), args[0]))
 	case "strings.TrimSuffix":
 		return one(Ite(StrSuffixOf(args[1], args[0]), Substr(args[0], IntLit(0), Sub(StrLen(args[0]), StrLen(args[1]))), args[0]))
+	case "slices.Contains":
+		if sl, ok := c.Args[0].Type().Underlying().(*types.Slice); ok {
+			return one(fg.sliceContains(args[0], sl.Elem(), args[1], st))
+		}
+		return one(fresh(SBool))
 	case "strings.Compare":
 		return one(Ite(Eq(args[0], args[1]), IntLit(0), Ite(StrLtT(args[0], args[1]), IntLit(-1), IntLit(1))))
 	case "strings.Cut":
